@@ -27,6 +27,33 @@ PROPS = {
                       "harness generators. Read-loop message delimiting (segmentation into reads) is exercised end-to-end under C08/C09.",
         "assumptions": ["payloads are XML documents (declaration, if any, first); 1.0 payloads do not contain the ']]>]]>' delimiter"],
     },
+    "C15": {
+        "n": {"quick": 250, "thorough": 4000},
+        "cone": ["Telnet", "TelnetLemmas"],
+        "rule": "real transport.Telnet against a loopback TCP server: openings drawn from the RFC 854 token grammar (option negotiations with all "
+                "four verbs x option codes incl. SGA, two-byte commands NOP/GA/..., escaped IAC, banner data) x random TCP segmentations; compared: "
+                "bytes the server received, bytes returned by the first reads; non-trivial = opening has a negotiation and data",
+        "level_text": "Theorem C15_negotiation: for every token sequence the byte-at-a-time parser answers each option request exactly once with the "
+                      "RFC answer, ends outside control mode and buffers exactly the data bytes in order (induction over tokens, all option codes, "
+                      "unbounded). The model is tied to transport/telnet.go by running the real transport over loopback TCP.",
+        "level_note": "Trusted: kernel, generated telnet constants, extraction, harness TCP peer. Subnegotiation (IAC SB ... IAC SE) is outside "
+                      "the property's grammar and the model. The timeout that ends the negotiation phase is runtime behaviour (observed, not proved).",
+    },
+    "C20": {
+        "n": {"quick": 150, "thorough": 1500},
+        "race": True,
+        "cone": ["Queue", "QueueLemmas"],
+        "rule": "all sequential histories over {enqueue, dequeue, dequeue-all, requeue, depth} up to length 5 (thorough: 7) plus random ones "
+                "to length 14, each run on util.Queue and on the Coq model (projected: consumer's net stream, chunks held, nil returns, "
+                "depths, panic); plus producer/consumer stress runs under the race detector across GOMAXPROCS 1/2/4/16 with the "
+                "consumer cycling through a random mix of the four consumer operations; non-trivial = history of >= 3 operations or a stress run",
+        "level_text": "Theorems C20_* hold for every chunk list, every consumer program and every interleaving (inductive invariant over the "
+                      "small-step model of util/queue.go at lock/mailbox granularity; data-generic, unbounded): lossless FIFO with put-backs, no "
+                      "panic, depth = chunks held, no deadlock, termination measure. Tied to the code by sequential histories (exhaustive to a "
+                      "bound) compared with the model and by concurrent stress under -race with the property as oracle.",
+        "level_note": "Partial in one respect: that sync.RWMutex and a 1-slot buffered channel implement the modelled lock/mailbox semantics is the "
+                      "Go runtime's; the concurrent runs observe the real thing but cannot force its interleavings.",
+    },
     "C13": {
         "n": {"quick": 400, "thorough": 20000},
         "cone": ["Bytes", "Generic", "GenericLemmas"],
